@@ -5,6 +5,8 @@
 package crdtsim
 
 import (
+	"runtime"
+	"os"
 	"context"
 	"encoding/json"
 	"errors"
@@ -359,8 +361,18 @@ func (H) Execute(t *testing.T, plan *simkit.Plan, run *simkit.Run) {
 		srv.RegisterName("PeerMonitor", monSvc{})
 		cons.SetClient(rpc.NewClientWithServer(h, version.RPCProtocol, srv))
 		w.reps = append(w.reps, rep)
+		if os.Getenv("VERIF_DEBUG_CTR") != "" {
+			run.Ev("dbg", "replica", "%d created", i)
+		}
 	}
 	w.net.ConnectAll()
+	if os.Getenv("VERIF_DEBUG_CTR") != "" {
+		run.Ev("dbg", "connected", "")
+	}
+	if os.Getenv("VERIF_DEBUG_STACKS") != "" {
+		buf := make([]byte, 64<<20)
+		os.Stderr.Write(buf[:runtime.Stack(buf, true)])
+	}
 	defer func() {
 		for _, r := range w.reps {
 			r.cons.Shutdown(context.Background())
@@ -376,7 +388,15 @@ func (H) Execute(t *testing.T, plan *simkit.Plan, run *simkit.Run) {
 			panic("crdt consensus not ready")
 		}
 	}
-	time.Sleep(3 * time.Second) // gossipsub mesh
+	if os.Getenv("VERIF_DEBUG_CTR") != "" {
+		run.Ev("dbg", "ready", "")
+		for k := 0; k < 30; k++ {
+			time.Sleep(100 * time.Millisecond)
+			run.Ev("dbg", "tick", "%d", k)
+		}
+	} else {
+		time.Sleep(3 * time.Second) // gossipsub mesh
+	}
 
 	for _, raw := range plan.Steps {
 		var s Step
